@@ -127,7 +127,7 @@ ASSUME = ["database is a dict started empty", "hash = identity in the model: kec
 
 
 def generic(prop, tier, quick, thorough, *, opts=(), modes=("plain",), ntr=(60, 600), prune=None,
-            need_tags=(), sim=None, sim_n=(24, 600), sim_depth=(10, 14), finish=True, recorded=()):
+            need_tags=(), sim=None, sim_n=(24, 144), sim_depth=(10, 12), finish=True, recorded=()):
     rep = Report(prop, tier, LEVEL)
     rep.assumptions += ASSUME
     for kw in (quick if tier == "quick" else thorough):
@@ -274,7 +274,7 @@ def c08(tier):
                     dict(base, level=6, prune="OnlyNoPrune")],
                    modes=(), need_tags=("has-extension", "has-branch", "embedded-child", "hashed-child"),
                    sim=dict(base, features="FBatchNoop", keys="KFull", look="LFull", vals="VQuick", maxlive=5,
-                            emit="EmitC08"), sim_n=(12, 240))
+                            emit="EmitC08"), sim_n=(12, 72))
 
 
 def c10(tier):
@@ -287,7 +287,7 @@ def c10(tier):
                   dict(base, level=6, prune="OnlyNoPrune")],
                  modes=(), need_tags=("has-extension", "has-branch", "calls:iter.nodes"),
                  sim=dict(base, features="FBatchNoop", keys="KFull", look="LFull", vals="VQuick", maxlive=5,
-                          emit="EmitC10"), sim_n=(12, 240), finish=False)
+                          emit="EmitC10"), sim_n=(12, 72), finish=False)
     rep = rc
     # the loop of NodeIterator.nodes() as a run of the fog-walk specification: always the
     # left-most unexplored prefix, frontier cache on, no mutation; it must visit Preorder(trie)
@@ -314,7 +314,7 @@ def c03(tier):
                     dict(base, level=4, keys="KThresh", look="LThresh", vals="VThreshB")],
                    modes=(), need_tags=("has-extension", "has-branch", "embedded-child", "hashed-child"),
                    sim=dict(base, features="FBatchNoop", keys="KFull", look="LFull", vals="VQuick", maxlive=4,
-                            emit="EmitC03", invariants=["ProofComplete", "ProofOnPath"]), sim_n=(12, 120),
+                            emit="EmitC03", invariants=["ProofComplete", "ProofOnPath"]), sim_n=(12, 48),
                    sim_depth=(5, 9))
 
 
